@@ -11,7 +11,7 @@ from ..model import Class, Func, own_nodes, src
 from ..pathsem import function_paths
 from ..typeinf import classes_of, elem
 from .c08 import forward_shape, op_paths
-from .common import chain, derived_names, element_placements, loop_body_paths, mentions, order_of, possible_classes
+from .common import chain, single_env as _single_env, derived_names, element_placements, loop_body_paths, mentions, order_of, possible_classes
 
 PROPERTY = "C19"
 LEVEL = "other"
@@ -26,21 +26,63 @@ EXPLANATION = (
 ASSUMPTIONS = ["Port._items_to_ports is the denotation of a port expression (C08)"]
 
 
-def _split_sites(f: Func) -> List[Tuple[ast.Compare, str, List[str]]]:
-    """`X.<sd>port.operator in [...]` tests in ungroup_ports: (node, 'src'|'dst', operator literals)."""
+def _rchain(expr: ast.AST, env: Dict[str, ast.AST]) -> Optional[List[str]]:
+    """Attribute chain of `expr` with a leading single-assignment local replaced by what it was bound to."""
+    c = chain(expr)
+    for _ in range(4):
+        if c and c[0] in env:
+            head = chain(env[c[0]])
+            if head is None:
+                return c
+            c = head + c[1:]
+        else:
+            break
+    return c
+
+
+def _stage_funcs(ctx: Ctx) -> List[Func]:
+    """Ace.ungroup_ports and, when a stage was extracted into a helper that receives the port attribute's name as a
+    constant ("srcport"/"dstport"), that helper specialised to each constant (getattr(x, "srcport") -> x.srcport)."""
+    from .common import bind_call
+    from .normalise import specialised
+
+    up = ctx.func("Ace.ungroup_ports")
+    out = [up]
+    seen = set()
+    for n in own_nodes(up.node):
+        if isinstance(n, ast.Call) and isinstance(n.func, ast.Attribute) and isinstance(n.func.value, ast.Name):
+            m = up.cls.lookup_method(n.func.attr) if up.cls else None
+            if m is None or m is up or m.cls is None or m.module is not up.module:
+                continue
+            binding = bind_call(m, n, bound=True)
+            if binding is None:
+                continue
+            consts = {k: v.value for k, v in binding.items() if isinstance(v, ast.Constant) and isinstance(v.value, str)}
+            key = (m.qualname, tuple(sorted(consts.items())))
+            if consts and key not in seen:
+                seen.add(key)
+                out.append(specialised(ctx, m, consts))
+    return out
+
+
+def _split_sites(f: Func) -> List[Tuple[ast.Compare, str, List[str], bool]]:
+    """`X.<sd>port.operator [not] in [...]` tests of a stage function: (node, 'src'|'dst', operator literals, negated)."""
     out = []
+    env = _single_env(f.node)
     for n in own_nodes(f.node):
-        if isinstance(n, ast.Compare) and len(n.ops) == 1 and isinstance(n.ops[0], (ast.In, ast.Eq)):
-            c = chain(n.left)
+        if isinstance(n, ast.Compare) and len(n.ops) == 1 and isinstance(n.ops[0], (ast.In, ast.Eq, ast.NotIn, ast.NotEq)):
+            c = _rchain(n.left, env)
             if c and c[-1] in ("operator", "_operator") and len(c) >= 3:
                 sd = "src" if "src" in c[-2] else "dst" if "dst" in c[-2] else "?"
                 cmp_ = n.comparators[0]
+                if isinstance(cmp_, ast.Name) and cmp_.id in env:
+                    cmp_ = env[cmp_.id]
                 lits = []
                 if isinstance(cmp_, (ast.List, ast.Tuple, ast.Set)):
                     lits = [e.value for e in cmp_.elts if isinstance(e, ast.Constant)]
                 elif isinstance(cmp_, ast.Constant):
                     lits = [cmp_.value]
-                out.append((n, sd, lits))
+                out.append((n, sd, lits, isinstance(n.ops[0], (ast.NotIn, ast.NotEq))))
     return out
 
 
@@ -55,22 +97,22 @@ def r19_1(ctx: Ctx, rep: Report) -> None:
         normal = [p for p in fpaths[op] if not p.raises]
         if normal:
             kind[op] = forward_shape(ctx, fwd, normal[0], fwd.params[1])["kind"]
-    sites = _split_sites(up)
+    sites = [(sf, x) for sf in _stage_funcs(ctx) for x in _split_sites(sf)]
     rep.instance(len(sites))
     rep.floor(2, "operator tests in Ace.ungroup_ports (source and destination)")
-    for node, sd, lits in sites:
+    for sf, (node, sd, lits, _neg) in sites:
         for op in lits:
             k = kind.get(op, "?")
             side = {"src": "source", "dst": "destination"}.get(sd, sd)
             if k == "IDENT":
-                rep.ok(f"Ace.ungroup_ports: {op!r} splittable ({side} site)", "additive: the port set is the union over the operands", where=where(up, node))
+                rep.ok(f"Ace.ungroup_ports: {op!r} splittable ({side} site)", "additive: the port set is the union over the operands", where=where(sf, node))
             elif k == "COMPLEMENT":
                 rep.violation(
                     "Ace.ungroup_ports",
                     f'operator literal "{op}" in the splittable set ({side} site)',
                     f"{op!r} is subtractive (universe minus the operands): several operands mean a conjunction of exclusions, but several entries are a disjunction; "
                     f"'{op} 3 4' split into '{op} 3' and '{op} 4' matches every port",
-                    where(up, node),
+                    where(sf, node),
                     inp=f"permit tcp any any {op} 3 4  ->  {op} 3 + {op} 4 (union = all ports)",
                 )
             else:
@@ -78,25 +120,37 @@ def r19_1(ctx: Ctx, rep: Report) -> None:
                     "Ace.ungroup_ports",
                     f'operator literal "{op}" in the splittable set ({side} site)',
                     f"{op!r} denotes {k}: its operands are bounds, not alternatives; splitting them changes the meaning",
-                    where(up, node),
+                    where(sf, node),
                     inp=f"permit tcp any any {op} 1 3",
                 )
+
+
+def _stage_call(e: ast.AST, up: Func) -> Optional[Tuple[str, str]]:
+    """`<recv>.<helper>("srcport")` -> (recv, 'src'|'dst')."""
+    if isinstance(e, ast.Call) and isinstance(e.func, ast.Attribute) and isinstance(e.func.value, ast.Name):
+        lits = [a.value for a in list(e.args) + [k.value for k in e.keywords] if isinstance(a, ast.Constant) and isinstance(a.value, str)]
+        if len(lits) == 1 and ("src" in lits[0] or "dst" in lits[0]) and up.cls is not None and up.cls.lookup_method(e.func.attr) is not None:
+            return e.func.value.id, ("src" if "src" in lits[0] else "dst")
+    return None
 
 
 def r19_2(ctx: Ctx, rep: Report, rid: str = "R19.2") -> None:  # noqa: C901
     rep.rule(rid)
     up = ctx.func("Ace.ungroup_ports")
-    cfg = ctx.cfg(up)
-    loops = [n for n in cfg.live if n.kind == "for"]
+    stage_funcs = _stage_funcs(ctx)
     port_loops = []
-    for lp in loops:
-        c = chain(lp.ast.iter)
-        if c and c[-1] in ("items", "_items") and len(c) >= 3 and "port" in c[-2]:
-            port_loops.append((lp, c))
+    for sf in stage_funcs:
+        cfg = ctx.cfg(sf)
+        env = _single_env(sf.node)
+        for lp in [n for n in cfg.live if n.kind == "for"]:
+            c = _rchain(lp.ast.iter, env)
+            if c and c[-1] in ("items", "_items") and len(c) >= 3 and "port" in c[-2]:
+                port_loops.append((sf, cfg, lp, c))
     rep.instance(len(port_loops))
     rep.floor(2, "operand loops (source and destination)")
     accs: List[str] = []
-    for lp, c in port_loops:
+    helper_form: Dict[str, bool] = {}
+    for sf, cfg, lp, c in port_loops:
         sd = "src" if "src" in c[-2] else "dst"
         var = src(lp.ast.target)
         owner = c[0]
@@ -110,7 +164,7 @@ def r19_2(ctx: Ctx, rep: Report, rid: str = "R19.2") -> None:  # noqa: C901
                 if tc and tc[-1] in ("items", "line", "ports") and len(tc) >= 3 and "port" in tc[-2]:
                     stores.append((n, tc))
         if not stores:
-            rep.violation("Ace.ungroup_ports", f"for {var} in {'.'.join(c)}", "the loop over the operands does not give each new entry its single operand", where(up, lp.ast))
+            rep.violation("Ace.ungroup_ports", f"for {var} in {'.'.join(c)}", "the loop over the operands does not give each new entry its single operand", where(sf, lp.ast))
             continue
         sn, tc = stores[0]
         obj = tc[0]
@@ -121,21 +175,24 @@ def r19_2(ctx: Ctx, rep: Report, rid: str = "R19.2") -> None:  # noqa: C901
         fresh = False
         copied_from = None
         for n in body_nodes:
-            if n.kind == "stmt" and isinstance(n.ast, ast.Assign) and isinstance(n.ast.targets[0], ast.Name) and n.ast.targets[0].id == obj:
+            if n.kind == "stmt" and isinstance(n.ast, (ast.Assign, ast.AnnAssign)) and n.ast.value is not None:
+                tg = n.ast.targets[0] if isinstance(n.ast, ast.Assign) else n.ast.target
+                if not (isinstance(tg, ast.Name) and tg.id == obj):
+                    continue
                 v = n.ast.value
                 if isinstance(v, ast.Call) and isinstance(v.func, ast.Attribute) and v.func.attr == "copy" and cfg.dominates(n, sn):
                     fresh = True
                     copied_from = src(v.func.value)
         if not ok_side:
-            rep.violation("Ace.ungroup_ports", snippet(sn.ast), f"the {sd} operand loop writes the other side's port", where(up, sn.ast))
+            rep.violation("Ace.ungroup_ports", snippet(sn.ast), f"the {sd} operand loop writes the other side's port", where(sf, sn.ast))
         elif not one:
-            rep.violation("Ace.ungroup_ports", snippet(sn.ast), f"each split entry must receive the one-element list [{var}]; this keeps several ports on the entry", where(up, sn.ast), inp="permit tcp any eq 1 2 any -> entries still listing two ports")
+            rep.violation("Ace.ungroup_ports", snippet(sn.ast), f"each split entry must receive the one-element list [{var}]; this keeps several ports on the entry", where(sf, sn.ast), inp="permit tcp any eq 1 2 any -> entries still listing two ports")
         elif not fresh:
-            rep.violation("Ace.ungroup_ports", f"{obj} mutated in the loop over {'.'.join(c)}", "the entry that receives the operand is not a copy made inside the same iteration: all results alias one object", where(up, sn.ast), inp="permit tcp any eq 1 2 any -> two identical entries 'eq 2'")
+            rep.violation("Ace.ungroup_ports", f"{obj} mutated in the loop over {'.'.join(c)}", "the entry that receives the operand is not a copy made inside the same iteration: all results alias one object", where(sf, sn.ast), inp="permit tcp any eq 1 2 any -> two identical entries 'eq 2'")
         elif copied_from != owner:
-            rep.violation("Ace.ungroup_ports", f"{obj} = {copied_from}.copy() while iterating {'.'.join(c)}", "the copy is not taken from the entry whose operands are iterated: other fields are lost or mixed", where(up, sn.ast))
+            rep.violation("Ace.ungroup_ports", f"{obj} = {copied_from}.copy() while iterating {'.'.join(c)}", "the copy is not taken from the entry whose operands are iterated: other fields are lost or mixed", where(sf, sn.ast))
         else:
-            rep.ok(f"Ace.ungroup_ports: for {var} in {'.'.join(c)}", f"{obj} = {copied_from}.copy() per iteration; {snippet(sn.ast, 40)}", where=where(up, lp.ast))
+            rep.ok(f"Ace.ungroup_ports: for {var} in {'.'.join(c)}", f"{obj} = {copied_from}.copy() per iteration; {snippet(sn.ast, 40)}", where=where(sf, lp.ast))
         # exactly one append of the copy per iteration
         rep.instance()
         worst_lo, worst_hi = 99, 0
@@ -152,18 +209,28 @@ def r19_2(ctx: Ctx, rep: Report, rid: str = "R19.2") -> None:  # noqa: C901
                             acc = src(call.func.value)
             worst_lo, worst_hi = min(worst_lo, k), max(worst_hi, k)
         if worst_lo == worst_hi == 1:
-            rep.ok(f"Ace.ungroup_ports: {acc}.append({obj})", "exactly once per operand", where=where(up, lp.ast))
+            rep.ok(f"Ace.ungroup_ports: {acc}.append({obj})", "exactly once per operand", where=where(sf, lp.ast))
             accs.append(acc or "")
         else:
-            rep.violation("Ace.ungroup_ports", f"append of {obj}", f"a split entry is appended {worst_lo}..{worst_hi} times per operand (must be exactly once)", where(up, lp.ast))
+            rep.violation("Ace.ungroup_ports", f"append of {obj}", f"a split entry is appended {worst_lo}..{worst_hi} times per operand (must be exactly once)", where(sf, lp.ast))
+        if sf is not up:
+            # an extracted stage hands its accumulator back: after the loop, every normal path returns it
+            rep.instance()
+            after = [s for lab, s in lp.succ if lab != "body"]
+            rets = [n for n in (cfg.reachable(after[0], labels_avoid=("exc",)) if after else set()) if n.kind == "stmt" and isinstance(n.ast, ast.Return)]
+            if acc and rets and all(r.ast.value is not None and src(r.ast.value) == acc for r in rets):
+                rep.ok(f"{sf.qualname} ({sd} stage): return {acc}", "the extracted stage returns the list it filled", where=where(sf, rets[0].ast))
+                helper_form[sd] = True
+            else:
+                rep.violation("Ace.ungroup_ports", f"{sf.qualname} ({sd} stage)", "the extracted stage does not return the list of split entries", where(sf, lp.ast))
     # cross product: the destination stage iterates the accumulator of the source stage
     rep.instance()
-    dst_stage = [lp for lp, c in port_loops if "dst" in c[-2]]
-    src_stage = [lp for lp, c in port_loops if "src" in c[-2]]
-    if dst_stage and src_stage:
-        d_owner = chain(dst_stage[0].ast.iter)[0]
+    dst_stage = [(sf, lp, c) for sf, _cfg, lp, c in port_loops if "dst" in c[-2]]
+    src_stage = [(sf, lp, c) for sf, _cfg, lp, c in port_loops if "src" in c[-2]]
+    if dst_stage and src_stage and dst_stage[0][0] is up and src_stage[0][0] is up:
+        d_owner = dst_stage[0][2][0]
         outer = None
-        p = getattr(dst_stage[0].ast, "_parent", None)
+        p = getattr(dst_stage[0][1].ast, "_parent", None)
         while p is not None and p is not up.node:
             if isinstance(p, ast.For):
                 outer = p
@@ -176,24 +243,63 @@ def r19_2(ctx: Ctx, rep: Report, rid: str = "R19.2") -> None:  # noqa: C901
             rep.violation("Ace.ungroup_ports", f"for {d_owner} in {src(outer.iter)}", "the destination stage does not iterate the result of the source stage: combinations are lost", where(up, outer))
         else:
             rep.violation("Ace.ungroup_ports", "destination stage", "source and destination splits are not nested: no cross product", where(up))
-    # pass-through branches append one copy
+    elif dst_stage and src_stage:
+        # extracted stages: [d for s in self.H("srcport") for d in s.H("dstport")]  (or the same as nested loops)
+        ok = False
+        for n in own_nodes(up.node):
+            if isinstance(n, (ast.ListComp, ast.GeneratorExp)) and len(n.generators) == 2 and not n.generators[0].ifs and not n.generators[1].ifs:
+                g0, g1 = n.generators
+                c0, c1 = _stage_call(g0.iter, up), _stage_call(g1.iter, up)
+                if c0 and c1 and c0[0] == "self" and isinstance(g0.target, ast.Name) and c1[0] == g0.target.id and {c0[1], c1[1]} == {"src", "dst"} and isinstance(g1.target, ast.Name) and src(n.elt) == g1.target.id:
+                    ok = True
+                    rep.ok("Ace.ungroup_ports: stages", f"{snippet(n, 90)}: the second stage runs for every entry of the first: full cross product", where=where(up, n))
+            if isinstance(n, ast.For) and isinstance(n.target, ast.Name):
+                c0 = _stage_call(n.iter, up)
+                if c0 and c0[0] == "self":
+                    for m in ast.walk(n):
+                        if m is n:
+                            continue
+                        if isinstance(m, ast.For) and isinstance(m.target, ast.Name):
+                            c1 = _stage_call(m.iter, up)
+                            if c1 and c1[0] == n.target.id and {c0[1], c1[1]} == {"src", "dst"} and any(kind_ == "append" for b in m.body for kind_, _c in element_placements(b, m.target.id)):
+                                ok = True
+                                rep.ok("Ace.ungroup_ports: stages", "nested loops over the extracted stages: full cross product", where=where(up, n))
+                        if isinstance(m, ast.Call) and isinstance(m.func, ast.Attribute) and m.func.attr == "extend" and len(m.args) == 1:
+                            c1 = _stage_call(m.args[0], up)
+                            if c1 and c1[0] == n.target.id and {c0[1], c1[1]} == {"src", "dst"}:
+                                ok = True
+                                rep.ok("Ace.ungroup_ports: stages", "loop over the first stage extending by the second stage of each entry: full cross product", where=where(up, n))
+        if not ok:
+            rep.violation("Ace.ungroup_ports", "stages", "the extracted source and destination stages are not composed as a cross product (second stage applied to every entry of the first)", where(up))
+    # pass-through branches place exactly one copy
     rep.instance()
-    sites = _split_sites(up)
     ok_pass = 0
-    for node, sd, lits in sites:
-        par = getattr(node, "_parent", None)
-        if isinstance(par, ast.If) and par.orelse:
-            calls = [x for s in par.orelse for x in ast.walk(s) if isinstance(x, ast.Call) and isinstance(x.func, ast.Attribute) and x.func.attr == "append"]
-            if len(calls) == 1 and isinstance(calls[0].args[0], ast.Call) and src(calls[0].args[0].func).endswith(".copy"):
+    for sf in stage_funcs:
+        for node, sd, lits, neg in _split_sites(sf):
+            par = getattr(node, "_parent", None)
+            if isinstance(par, ast.UnaryOp) and isinstance(par.op, ast.Not):
+                neg = not neg
+                par = getattr(par, "_parent", None)
+            if not isinstance(par, ast.If):
+                continue
+            branch = par.body if neg else par.orelse
+            if not branch:
+                # early-return form: `if op not in [...]: return [x.copy()]` has a body; an empty branch drops entries
+                rep.violation("Ace.ungroup_ports", f"no branch for entries failing {snippet(node)}", "entries with other operators are dropped", where(sf, node))
+                continue
+            calls = [x for s_ in branch for x in ast.walk(s_) if isinstance(x, ast.Call) and isinstance(x.func, ast.Attribute) and x.func.attr == "append"]
+            rets = [x for s_ in branch for x in ast.walk(s_) if isinstance(x, ast.Return)]
+            one_copy_ret = len(rets) == 1 and isinstance(rets[0].value, ast.List) and len(rets[0].value.elts) == 1 and isinstance(rets[0].value.elts[0], ast.Call) and src(rets[0].value.elts[0].func).endswith(".copy")
+            if len(calls) == 1 and not rets and isinstance(calls[0].args[0], ast.Call) and src(calls[0].args[0].func).endswith(".copy"):
                 ok_pass += 1
-            elif len(calls) == 1:
-                rep.violation("Ace.ungroup_ports", snippet(calls[0]), "an entry whose operator is not split must be passed on as one copy", where(up, calls[0]))
+            elif not calls and one_copy_ret and sf is not up:
+                ok_pass += 1
+            elif len(calls) == 1 and not rets:
+                rep.violation("Ace.ungroup_ports", snippet(calls[0]), "an entry whose operator is not split must be passed on as one copy", where(sf, calls[0]))
             else:
-                rep.violation("Ace.ungroup_ports", f"else branch of {snippet(node)}", "an entry whose operator is not split is dropped or duplicated", where(up, node))
-        elif isinstance(par, ast.If):
-            rep.violation("Ace.ungroup_ports", f"no else branch for {snippet(node)}", "entries with other operators are dropped", where(up, node))
+                rep.violation("Ace.ungroup_ports", f"pass-through branch of {snippet(node)}", "an entry whose operator is not split is dropped or duplicated", where(sf, node))
     if ok_pass:
-        rep.ok("Ace.ungroup_ports: pass-through", f"{ok_pass} else branch(es) append exactly one copy", where=where(up))
+        rep.ok("Ace.ungroup_ports: pass-through", f"{ok_pass} branch(es) for unsplit operators pass on exactly one copy", where=where(up))
 
 
 def r19_3(ctx: Ctx, rep: Report, rid: str = "R19.3") -> None:
